@@ -81,7 +81,7 @@ namespace trompeloeil {
   {
   public:
     sequence_type& operator*() { return *obj; }
-    bool is_completed() const { return obj->is_completed(); }
+    bool is_completed() const { TROMPELOEIL_VERIF_EVENT("is_completed", this, 1); return obj->is_completed(); }
   private:
     std::unique_ptr<sequence_type> obj{detail::make_unique<sequence_type>()};
   };
@@ -105,7 +105,11 @@ namespace trompeloeil {
     {
       auto lock = get_lock();
       seq.add_last(this);
+      TROMPELOEIL_VERIF_EVENT("seq_add", this, 1);
     }
+#ifdef ROLLBEAR_TROMPELOEIL_VERIF
+    ~sequence_matcher() { TROMPELOEIL_VERIF_EVENT("handle_dtor", this, this->is_linked() && !orphaned); }
+#endif
 
     sequence_matcher(const sequence_matcher&) = delete;
     sequence_matcher(sequence_matcher&&) = default;
